@@ -89,6 +89,89 @@ mod verif_noop {
     pub(crate) use noop as error;
     pub(crate) use noop as info;
     pub(crate) use noop as warn;
+    pub(crate) use noop as debug;
+    macro_rules! never {
+        ($($tt:tt)*) => {
+            false
+        };
+    }
+    pub(crate) use never as event_enabled;
+}
+
+/// Verification stand-in for `HashMap<String, V>` (association list, insertion order).
+#[cfg(quickwit_oss_mrecordlog_verif)]
+#[allow(dead_code)]
+mod verif_map {
+    pub(crate) struct VecMap<K, V> {
+        entries: Vec<(K, V)>,
+    }
+
+    impl<K, V> Default for VecMap<K, V> {
+        fn default() -> Self {
+            VecMap {
+                entries: Vec::new(),
+            }
+        }
+    }
+
+    impl<V> VecMap<String, V> {
+        fn index_of(&self, key: &str) -> Option<usize> {
+            self.entries.iter().position(|(k, _)| k.as_str() == key)
+        }
+
+        pub fn contains_key(&self, key: &str) -> bool {
+            self.index_of(key).is_some()
+        }
+
+        pub fn get(&self, key: &str) -> Option<&V> {
+            self.index_of(key).map(|idx| &self.entries[idx].1)
+        }
+
+        pub fn get_mut(&mut self, key: &str) -> Option<&mut V> {
+            match self.index_of(key) {
+                Some(idx) => Some(&mut self.entries[idx].1),
+                None => None,
+            }
+        }
+
+        pub fn insert(&mut self, key: String, value: V) -> Option<V> {
+            match self.index_of(&key) {
+                Some(idx) => Some(std::mem::replace(&mut self.entries[idx].1, value)),
+                None => {
+                    self.entries.push((key, value));
+                    None
+                }
+            }
+        }
+
+        pub fn remove(&mut self, key: &str) -> Option<V> {
+            self.index_of(key).map(|idx| self.entries.remove(idx).1)
+        }
+
+        pub fn iter(&self) -> impl Iterator<Item = (&String, &V)> {
+            self.entries.iter().map(|(k, v)| (k, v))
+        }
+
+        pub fn iter_mut(&mut self) -> impl Iterator<Item = (&String, &mut V)> {
+            self.entries.iter_mut().map(|(k, v)| (&*k, v))
+        }
+
+        pub fn keys(&self) -> impl Iterator<Item = &String> {
+            self.entries.iter().map(|(k, _)| k)
+        }
+    }
+
+    impl<'a, V> IntoIterator for &'a VecMap<String, V> {
+        type Item = (&'a String, &'a V);
+        type IntoIter = std::iter::Map<std::slice::Iter<'a, (String, V)>, fn(&'a (String, V)) -> (&'a String, &'a V)>;
+
+        fn into_iter(self) -> Self::IntoIter {
+            fn split<'b, V>(e: &'b (String, V)) -> (&'b String, &'b V) {
+                (&e.0, &e.1)
+            }
+            self.entries.iter().map(split::<V> as fn(&'a (String, V)) -> (&'a String, &'a V))
+        }
+    }
 }
 
 #[cfg(all(kani, quickwit_oss_mrecordlog_verif))]
